@@ -47,8 +47,10 @@ let parse_case (toks : string list) : case =
   | _ -> failwith "case syntax"
 
 let show_field = function Ok b -> "ok:" ^ hb b | Err -> "err" | Panic -> "panic" | OutOfFuel -> "outoffuel"
+(* observation = class token (ok | err | panic) followed by the fields *)
 let show_obs (o : (n list) result list) : string =
-  if has_panic o then "panic" else String.concat " " (List.map show_field o)
+  if has_panic o then "panic" else
+  match o with [Err] -> "err" | _ -> "ok " ^ String.concat " " (List.map show_field o)
 let parse_field s =
   if s = "err" then Err else if s = "panic" then Panic
   else if String.length s >= 3 && String.sub s 0 3 = "ok:" then Ok (bytes_of_hex (String.sub s 3 (String.length s - 3)))
@@ -67,11 +69,13 @@ let () = run_driver (fun toks impl ->
   List.iter (fun e -> match String.index_opt e '=' with
       | Some i -> Hashtbl.replace tbl (String.sub e 0 i) (String.sub e (i + 1) (String.length e - i - 1))
       | None -> ()) table;
+  (* the first token joins the kind with its numeric selectors (dec:4:3) *)
+  let args = (match args with f :: r -> String.split_on_char ':' f @ r | [] -> []) in
   let c = parse_case args in
   let m = show_obs (model_obs table_prims c) in
   let v = match impl with
     | [] -> "na"
-    | _ -> (match (try Some (List.map parse_field impl) with Failure _ -> None) with
+    | _ -> (match (try Some (List.map parse_field (match impl with "ok" :: r -> r | l -> l)) with Failure _ -> None) with
         | Some io -> show_verdict (judge table_prims c io)
         | None -> "fails:-") in
   (m, v))
